@@ -244,6 +244,11 @@ Definition log_op (lg : logs) (o : op) (pre p : post) : logs :=
   | OBurn now _ _ x => mkL (l_m lg) ((now, x) :: l_b lg) (l_s lg) (l_gen lg)
   | OSwap now _ ps => mkL (l_m lg) (l_b lg) ((now, zsum (map (pair_value (p_bk pre)) ps)) :: l_s lg) (l_gen lg)
   | OGenesis => mkL (l_m lg) (l_b lg) (l_s lg) true
+  (* an end block lets the module forget what lies further back than the period then in force: an
+     action that had already left the window is not brought back by a later edit that lengthens the period *)
+  | OEndBlock now =>
+      let keep := filter (fun e : Z * Z => now - b_period (p_bk pre) * 1000000000 <=? fst e) in
+      mkL (keep (l_m lg)) (keep (l_b lg)) (keep (l_s lg)) (l_gen lg)
   | _ => lg
   end.
 
